@@ -9,6 +9,10 @@ use std::collections::HashMap;
 use std::io::Read;
 use Amf0Value;
 
+/// Arrays and objects nested deeper than this are rejected, so that hostile input can not
+/// exhaust the stack (the values are read recursively).
+const MAX_NESTING_DEPTH: usize = 128;
+
 struct ObjectProperty {
     label: String,
     value: Amf0Value,
@@ -19,7 +23,7 @@ pub fn deserialize<R: Read>(bytes: &mut R) -> Result<Vec<Amf0Value>, Amf0Deseria
     let mut results = vec![];
 
     loop {
-        match read_next_value(bytes)? {
+        match read_next_value(bytes, 0)? {
             Some(x) => results.push(x),
             None => break,
         };
@@ -28,7 +32,10 @@ pub fn deserialize<R: Read>(bytes: &mut R) -> Result<Vec<Amf0Value>, Amf0Deseria
     Ok(results)
 }
 
-fn read_next_value<R: Read>(bytes: &mut R) -> Result<Option<Amf0Value>, Amf0DeserializationError> {
+fn read_next_value<R: Read>(
+    bytes: &mut R,
+    depth: usize,
+) -> Result<Option<Amf0Value>, Amf0DeserializationError> {
     let mut buffer: [u8; 1] = [0];
     let bytes_read = bytes.read(&mut buffer)?;
 
@@ -45,10 +52,10 @@ fn read_next_value<R: Read>(bytes: &mut R) -> Result<Option<Amf0Value>, Amf0Dese
         markers::NULL_MARKER => parse_null().map(Some),
         markers::UNDEFINED_MARKER => parse_undefined().map(Some),
         markers::NUMBER_MARKER => parse_number(bytes).map(Some),
-        markers::OBJECT_MARKER => parse_object(bytes).map(Some),
-        markers::ECMA_ARRAY_MARKER => parse_ecma_array(bytes).map(Some),
+        markers::OBJECT_MARKER => parse_object(bytes, depth).map(Some),
+        markers::ECMA_ARRAY_MARKER => parse_ecma_array(bytes, depth).map(Some),
         markers::STRING_MARKER => parse_string(bytes).map(Some),
-        markers::STRICT_ARRAY_MARKER => parse_strict_array(bytes).map(Some),
+        markers::STRICT_ARRAY_MARKER => parse_strict_array(bytes, depth).map(Some),
         _ => Err(Amf0DeserializationError::UnknownMarker { marker: buffer[0] }),
     }
 }
@@ -88,11 +95,18 @@ fn parse_string<R: Read>(bytes: &mut R) -> Result<Amf0Value, Amf0Deserialization
     Ok(Amf0Value::Utf8String(value))
 }
 
-fn parse_object<R: Read>(bytes: &mut R) -> Result<Amf0Value, Amf0DeserializationError> {
+fn parse_object<R: Read>(
+    bytes: &mut R,
+    depth: usize,
+) -> Result<Amf0Value, Amf0DeserializationError> {
+    if depth >= MAX_NESTING_DEPTH {
+        return Err(Amf0DeserializationError::NestingTooDeep);
+    }
+
     let mut properties = HashMap::new();
 
     loop {
-        match parse_object_property(bytes)? {
+        match parse_object_property(bytes, depth + 1)? {
             Some(property) => properties.insert(property.label, property.value),
             None => break,
         };
@@ -102,7 +116,10 @@ fn parse_object<R: Read>(bytes: &mut R) -> Result<Amf0Value, Amf0Deserialization
     Ok(deserialized_value)
 }
 
-fn parse_ecma_array<R: Read>(bytes: &mut R) -> Result<Amf0Value, Amf0DeserializationError> {
+fn parse_ecma_array<R: Read>(
+    bytes: &mut R,
+    depth: usize,
+) -> Result<Amf0Value, Amf0DeserializationError> {
     // An ECMA array is an array of values indexed via strings instead of numeric indexes (so
     // essentially a hash map).  It seems functionally equivalent to an object so for simplicity
     // treat it as such.
@@ -114,15 +131,22 @@ fn parse_ecma_array<R: Read>(bytes: &mut R) -> Result<Amf0Value, Amf0Deserializa
     // like we can ignore the associative count and just read exactly as we would an object.
 
     let _associative_count = bytes.read_u32::<BigEndian>()?;
-    parse_object(bytes)
+    parse_object(bytes, depth)
 }
 
-fn parse_strict_array<R: Read>(bytes: &mut R) -> Result<Amf0Value, Amf0DeserializationError> {
+fn parse_strict_array<R: Read>(
+    bytes: &mut R,
+    depth: usize,
+) -> Result<Amf0Value, Amf0DeserializationError> {
+    if depth >= MAX_NESTING_DEPTH {
+        return Err(Amf0DeserializationError::NestingTooDeep);
+    }
+
     let _array_count = bytes.read_u32::<BigEndian>()?;
     let mut values: Vec<Amf0Value> = Vec::new();
 
     for _ in 0.._array_count {
-        match read_next_value(bytes)? {
+        match read_next_value(bytes, depth + 1)? {
             Some(value) => {
                 values.push(value);
             }
@@ -135,6 +159,7 @@ fn parse_strict_array<R: Read>(bytes: &mut R) -> Result<Amf0Value, Amf0Deseriali
 
 fn parse_object_property<R: Read>(
     bytes: &mut R,
+    depth: usize,
 ) -> Result<Option<ObjectProperty>, Amf0DeserializationError> {
     let label_length = bytes.read_u16::<BigEndian>()?;
     if label_length == 0 {
@@ -153,7 +178,7 @@ fn parse_object_property<R: Read>(
 
     let label = String::from_utf8(label_buffer)?;
 
-    match read_next_value(bytes)? {
+    match read_next_value(bytes, depth)? {
         None => Err(Amf0DeserializationError::UnexpectedEof),
         Some(property_value) => Ok(Some(ObjectProperty {
             label,
